@@ -224,11 +224,20 @@ Definition eb_empty : exbuf := mkEB [] 0 0.
 (* Go's append growth for one more element (doubling; exact for the 40-byte Exemplar up to 32) *)
 Definition growcap (c : nat) : nat := match c with O => 1%nat | _ => (2 * c)%nat end.
 
-Definition next_ptr (e : exbuf) : exbuf :=
+Fixpoint zero_nth (n : nat) (l : list exem) : list exem :=
+  match l, n with
+  | [], _ => []
+  | _ :: r, O => ex_zero :: r
+  | y :: r, S k => y :: zero_nth k r
+  end.
+
+(* nextExemplarPtr.  [zero] = repair 3 of notes/C36_fix.md: a slot taken into use again by
+   re-slicing is zeroed first. *)
+Definition next_ptr (zero : bool) (e : exbuf) : exbuf :=
   if (Z.of_nat (eb_cnt e) =? Z.of_nat (eb_len e) - 1) then e
   else if (eb_len e =? List.length (eb_arr e))%nat then
     mkEB (firstn (eb_len e) (eb_arr e) ++ repeat ex_zero (growcap (eb_len e) - eb_len e)) (S (eb_len e)) (eb_cnt e)
-  else mkEB (eb_arr e) (S (eb_len e)) (eb_cnt e).
+  else mkEB (if zero then zero_nth (eb_len e) (eb_arr e) else eb_arr e) (S (eb_len e)) (eb_cnt e).
 
 (* parser.Exemplar(ex) writing into slot n.  OpenMetricsParser.Exemplar assigns Labels and Value
    always but HasTs/Ts only when the exemplar has a timestamp ([partial] = true): whatever the
@@ -242,12 +251,12 @@ Fixpoint write_nth (partial : bool) (n : nat) (x : exem) (l : list exem) : list 
   end.
 
 (* storeExemplars: for ex := next(); parser.Exemplar(ex); ex = next() { count++ } *)
-Fixpoint store_exemplars (partial : bool) (e : exbuf) (xs : list exem) : exbuf :=
+Fixpoint store_exemplars (partial zero : bool) (e : exbuf) (xs : list exem) : exbuf :=
   match xs with
-  | [] => next_ptr e
+  | [] => next_ptr zero e
   | x :: r =>
-      let e1 := next_ptr e in
-      store_exemplars partial
+      let e1 := next_ptr zero e in
+      store_exemplars partial zero
         (mkEB (write_nth partial (eb_len e1 - 1) x (eb_arr e1)) (eb_len e1) (S (eb_cnt e1))) r
   end.
 
@@ -275,27 +284,36 @@ Definition different_metric (p : pst) (l : labels) : bool :=
 (* [fix_ts], [fix_keepex]: the repairs proposed in notes/C36_fix.md (false = the code as found):
    fix_ts      the converted histogram carries the timestamp of its last collated series, kept
                by value, instead of whatever p.ts points to when it is emitted;
-   fix_keepex  a kept classic series still reports its exemplars (served from tempExemplars). *)
+   fix_keepex  a kept classic series still reports its exemplars (served from tempExemplars);
+   fix_exzero  a buffer slot taken into use again is zeroed (no stale exemplar timestamp);
+   fix_exreset a failed conversion also empties tempExemplars;
+   fix_validate a converted histogram that fails Validate is dropped like one that fails to
+               convert (state and TempHistogram reset). *)
 Record cfg := mkCfg { keep_classic : bool; parse_st : bool; ex_partial : bool;
-                      fix_ts : bool; fix_keepex : bool }.
+                      fix_ts : bool; fix_keepex : bool;
+                      fix_exzero : bool; fix_exreset : bool; fix_validate : bool }.
 
 (* processNHCB: (converted?, state afterwards, the histogram entry to emit) *)
 Definition process_nhcb (c : cfg) (p : pst) : bool * pst * list oentry :=
   match p_state p with
   | SCollecting =>
+      let failed :=
+        (false,
+         mkP SStart (p_typ p) (p_bname p) (p_ts p) (p_tmpl p) th_empty
+             (mkEB (eb_arr (p_ex p)) (if fix_exreset c then O else eb_len (p_ex p)) 0) 0
+             (p_lastname p) (p_lasthash p) (p_oom p) (p_tmpts p) (p_curex p),
+         []) in
       match convert (p_tmp p) with
       | Some n =>
           if validate n then
             (true,
              mkP SStart (p_typ p) (p_bname p) (p_ts p) (p_tmpl p) th_empty
                  (mkEB (eb_arr (p_ex p)) 0 0) 0 (p_lastname p) (p_lasthash p) (p_oom p) (p_tmpts p) (p_curex p),
-             [ONhcb (mkS (p_tmpl p) (if fix_ts c then p_tmpts p else p_ts p) (p_tmpst p) (firstn (eb_cnt (p_ex p)) (eb_arr (p_ex p)))) n])
+             [ONhcb (mkS (p_tmpl p) (if fix_ts c then p_tmpts p else p_ts p) (p_tmpst p)
+                         (firstn (eb_cnt (p_ex p)) (eb_arr (p_ex p)))) n])
+          else if fix_validate c then failed
           else (false, p, [])            (* `return false` before anything is reset *)
-      | None =>
-          (false,
-           mkP SStart (p_typ p) (p_bname p) (p_ts p) (p_tmpl p) th_empty
-               (mkEB (eb_arr (p_ex p)) (eb_len (p_ex p)) 0) 0 (p_lastname p) (p_lasthash p) (p_oom p) (p_tmpts p) (p_curex p),
-           [])
+      | None => failed
       end
   | _ => (false, p, [])
   end.
@@ -309,7 +327,7 @@ Definition process_classic (c : cfg) (p : pst) (s : sample) (v : num) (name : st
             | _ => mkP SCollecting (p_typ p) (p_bname p) (p_ts p) (metric_base (s_lset s) name) (p_tmp p)
                        (p_ex p) (if parse_st c then s_st s else 0) name (without (s_lset s) [LE]) (p_oom p) (p_tmpts p) (p_curex p)
             end in
-  let ex := store_exemplars (ex_partial c) (p_ex p1) (s_ex s) in
+  let ex := store_exemplars (ex_partial c) (fix_exzero c) (p_ex p1) (s_ex s) in
   let '(tmp, oom) :=
     match u, v with
     | USum, _ => (set_sum (p_tmp p1) v, false)
@@ -409,5 +427,112 @@ Fixpoint run_from (c : cfg) (p : pst) (es : list bentry) : pst * list oentry :=
 Definition run (c : cfg) (es : list bentry) (eof : bool) : list oentry * bool :=
   let '(p, out) := run_from c p_init es in
   (if eof then out ++ snd (process_nhcb c p) else out, p_oom p).
+
+(* ---- the protobuf parser's own conversion (ProtobufParser with convertClassicHistogramsToNHCB) ----
+   The protobuf parser does not use NHCBParser: for every metric of a histogram family that has
+   no native histogram it calls convertToNHCB (SetCount, SetSum, SetBucketCount for every
+   explicit bucket, Convert — no Validate) and emits the result right behind the metric's
+   classic series, which it emits only with keep-classic.  A conversion error ends the parse.
+   The model works on the entry stream of the same parser WITHOUT conversion: a classic
+   histogram metric is a maximal run of classic series with one label set; classic series
+   directly behind a native histogram of the same label set belong to that native metric. *)
+Record pgroup := mkPG { pg_name : string; pg_key : labels; pg_first : sample;
+                        pg_tmp : option temph; pg_ex : list exem }.
+
+Definition proto_close (g : option pgroup) : option (list oentry) :=
+  match g with
+  | None => Some []
+  | Some g =>
+      match pg_tmp g with
+      | None => None
+      | Some t =>
+          match convert t with
+          | Some n => Some [ONhcb (mkS (metric_base (s_lset (pg_first g)) (pg_name g)) (s_ts (pg_first g))
+                                       (s_st (pg_first g)) (pg_ex g)) n]
+          | None => None
+          end
+      end
+  end.
+
+Definition proto_role (typ : Z) (bname : string) (l : labels) : option (string * upd) :=
+  if negb (typ =? T_HISTOGRAM) then None
+  else let '(suf, name) := base_name (lget l NAME) in
+       if negb (String.eqb name bname) then None
+       else match suf with
+            | SufBucket => if lhas l LE then
+                             match parse_le (lget l LE) with
+                             | Some le => if num_eqb le NaN then None else Some (name, UBucket le)
+                             | None => None
+                             end
+                           else None
+            | SufCount => Some (name, UCount)
+            | SufSum => Some (name, USum)
+            | SufNone => None
+            end.
+
+Definition proto_apply (t : option temph) (u : upd) (v : num) : option temph :=
+  match t with
+  | None => None
+  | Some t =>
+      match u, v with
+      | USum, _ => Some (set_sum t v)
+      | UCount, Fin z => Some (set_count t z)
+      (* the synthesised le="+Inf" series of a histogram without explicit +Inf bucket is not
+         fed to the TempHistogram; feeding it is equivalent (Convert appends the same bucket) *)
+      | UBucket le, Fin z => set_bucket t le z
+      | _, _ => None
+      end
+  end.
+
+(* exemplars of the converted histogram: the buckets' exemplars that have a timestamp *)
+Definition ex_with_ts (l : list exem) : list exem :=
+  filter (fun e => match snd e with Some _ => true | None => false end) l.
+
+Fixpoint proto_walk (keep : bool) (typ : Z) (bname : string) (nat_key : option labels)
+    (g : option pgroup) (es : list bentry) : list oentry * bool :=
+  let closing (k : list oentry -> list oentry * bool) : list oentry * bool :=
+    match proto_close g with
+    | Some fl => let '(o, ok) := k fl in (o, ok)
+    | None => ([], false)
+    end in
+  match es with
+  | [] => closing (fun fl => (fl, true))
+  | BSeries s v :: r =>
+      match proto_role typ bname (s_lset s) with
+      | Some (name, u) =>
+          let key := without (s_lset s) [LE] in
+          if match nat_key with Some k => labels_eqb k key | None => false end then
+            closing (fun fl => let '(o, ok) := proto_walk keep typ bname nat_key None r in
+                               (fl ++ OSeries s v :: o, ok))
+          else
+            let own := if keep then [OSeries s v] else [] in
+            if match g with Some g0 => labels_eqb (pg_key g0) key | None => false end then
+              match g with
+              | Some g0 =>
+                  let g1 := mkPG (pg_name g0) (pg_key g0) (pg_first g0) (proto_apply (pg_tmp g0) u v)
+                                 (pg_ex g0 ++ ex_with_ts (s_ex s)) in
+                  let '(o, ok) := proto_walk keep typ bname nat_key (Some g1) r in (own ++ o, ok)
+              | None => ([], false)
+              end
+            else
+              closing (fun fl =>
+                let g1 := mkPG name key s (proto_apply (Some th_empty) u v) (ex_with_ts (s_ex s)) in
+                let '(o, ok) := proto_walk keep typ bname None (Some g1) r in (fl ++ own ++ o, ok))
+      | None =>
+          closing (fun fl => let '(o, ok) := proto_walk keep typ bname nat_key None r in
+                             (fl ++ OSeries s v :: o, ok))
+      end
+  | BHist s h :: r =>
+      closing (fun fl => let '(o, ok) := proto_walk keep typ bname (Some (without (s_lset s) [])) None r in
+                         (fl ++ OHist s h :: o, ok))
+  | BType n t :: r =>
+      closing (fun fl => let '(o, ok) := proto_walk keep t n None None r in (fl ++ OType n t :: o, ok))
+  | BOther k a b :: r =>
+      closing (fun fl => let '(o, ok) := proto_walk keep typ bname nat_key None r in
+                         (fl ++ OOther k a b :: o, ok))
+  end.
+
+Definition proto_run (keep : bool) (es : list bentry) : list oentry * bool :=
+  proto_walk keep (-1) EmptyString None None es.
 
 End WithParse.
